@@ -61,11 +61,11 @@ func (c03) Budget(tier string) runner.Budget {
 
 func (c03) Describe() runner.Description {
 	return runner.Description{
-		Rule: "each history is 1..6 seeded blocks of balance/nonce/storage/code mutations (about half of the blocks write >100 KiB so that the commit is split over several batch writes; some write nothing new) committed as blockChain.saveStates does. evaluations = crash images: for every block and EVERY prefix k=0..N of its physical writes, the disk image (everything durable before + first k writes) is opened with a brand-new database and walked completely (account trie, every storage trie, every code blob): all earlier roots must resolve and read back every recorded value; the block's own root must do so whenever its top node is on disk, and always for k=N. A write-error variant makes one physical write fail: Commit must report it and earlier roots stay intact. exhaustive=true refers to the write prefixes of each generated history (the histories themselves are sampled). distinct_nontrivial = distinct (history, block, k) with 0<k<N, i.e. crash points strictly inside a multi-batch commit.",
+		Rule: "each history is 1..6 seeded blocks of balance/nonce/storage/code mutations (about half of the blocks write >100 KiB so that the commit is split over several batch writes; some write nothing new) committed as blockChain.saveStates does. evaluations = crash images: for every block and EVERY prefix k=0..N of its physical writes, the disk image (everything durable before + first k writes) is opened with a brand-new database and walked completely (account trie, every storage trie, every code blob): all earlier roots must resolve and read back every recorded value; the block's own root must do so whenever its top node is on disk, and always for k=N. A write-error variant makes one physical write fail: Commit must report it and earlier roots stay intact; the same root is then committed again by the surviving process, and if that reports success the root must resolve from disk alone. exhaustive=true refers to the write prefixes of each generated history (the histories themselves are sampled). distinct_nontrivial = distinct (history, block, k) with 0<k<N, i.e. crash points strictly inside a multi-batch commit.",
 		Assumptions: []string{"crash model = process death: completed physical writes (Put or whole batch) survive, nothing is torn or lost (the code never syncs; the properties speak of process death)", "values read back on the un-crashed state right after each commit are the reference"},
 		Real:        []string{"storage/account (AccountDB.Commit, account objects)", "storage/trie (NodeDatabase.Commit, commit ordering, batches)", "storage/rlp"},
 		Stub:        []string{"disk: simdisk.KV (write log, crash images, write faults)"},
-		FaultKinds:  []string{"sibling_states_in_memory", "crash_after_write_k", "crash_inside_multibatch_commit", "disk_write_error"},
+		FaultKinds:  []string{"sibling_states_in_memory", "crash_after_write_k", "crash_inside_multibatch_commit", "disk_write_error", "commit_retry_after_write_error"},
 		Exhaustive:  true,
 	}
 }
@@ -397,6 +397,16 @@ func (c03) Exec(raw json.RawMessage, stt *simrt.Stats, log *simrt.Log) *simrt.Vi
 			}
 		}
 		if faulted {
+			// the process survives a failed write (transient I/O error) and commits the same root again,
+			// as a node retrying the block does: if THAT commit reports success the root must be on disk
+			if newRoot != (common.Hash{}) {
+				stt.Fault("commit_retry_after_write_error")
+				if rerr := adb.TrieDB().Commit(newRoot, false); rerr == nil {
+					if miss := c03Walk(simdisk.Image(kv.Snapshot(), nil, 0), newRoot); miss != "" {
+						return viol(b, "acknowledged-root-not-durable", "retry-after-write-error-"+c03Where(miss), "block %d root %x: the commit repeated after a failed physical write reported success, but the root cannot be resolved from disk: %s", b, newRoot.Bytes(), miss)
+					}
+				}
+			}
 			// the failed commit leaves the in-memory objects in an unspecified state: stop the history here
 			break
 		}
